@@ -299,6 +299,10 @@ class MessageManager(interfaces.TokenInterface, interfaces.MessageManager):
         # first iteration is sure to happen, others happen only if the enqueued
         # messages were NONs
         while not any(r == remote for r, mid in self._active_exchanges.keys()):
+            if remote not in self._backlogs:
+                # An error reported by the transport while sending the
+                # previous message has already cleared everything
+                break
             if self._backlogs[remote] != []:
                 next_message, messageerror_monitor = self._backlogs[remote].pop(0)
                 self._send_initially(next_message, messageerror_monitor)
@@ -338,7 +342,6 @@ class MessageManager(interfaces.TokenInterface, interfaces.MessageManager):
 
         if retransmission_counter < message.transport_tuning.MAX_RETRANSMIT:
             self.log.info("Retransmission, Message ID: %d.", message.mid)
-            self._send_via_transport(message)
             retransmission_counter += 1
             timeout *= 2
 
@@ -346,6 +349,10 @@ class MessageManager(interfaces.TokenInterface, interfaces.MessageManager):
                 message, timeout, retransmission_counter
             )
             self._active_exchanges[key] = (messageerror_monitor, next_retransmission)
+            # Sending only now that the exchange is registered again: if the
+            # transport reports an error right away (dispatch_error is then
+            # called from inside the send), it finds and removes the exchange
+            self._send_via_transport(message)
         else:
             self.log.info("Exchange timed out trying to transmit %s", message)
             del self._backlogs[message.remote]
